@@ -92,9 +92,18 @@ def repeat_harness(L, K, what, overlap, mode):
                         rec.read()
                     consumed = consumed_box[0] = "%d reads" % j
                 runs = []
-                for _ in range(3):
+                for i_ in range(3):
                     rec.rewind()
                     runs.append(list(core.split(rec, validator=mkval()[0], **skw)))
+                    if i_ == 0:
+                        # between two complete passes: a pass over the rewound recorder that is given up after its first region
+                        rec.rewind()
+                        g2 = core.split(rec, validator=mkval()[0], **skw)
+                        try:
+                            next(g2)
+                        except StopIteration:
+                            pass
+                        del g2
                 # a fresh reader over the recorded data must agree as well
                 rec.rewind()
                 kw2 = dict(kw)
@@ -224,9 +233,17 @@ def replay_fn(c):
                 for _ in range(int(fu.split()[0])):
                     rec.read()
             runs = []
-            for _ in range(3):
+            for i_ in range(3):
                 rec.rewind()
                 runs.append(list(ak.split(rec, validator=val(), **skw)))
+                if i_ == 0:
+                    rec.rewind()
+                    g2 = ak.split(rec, validator=val(), **skw)
+                    try:
+                        next(g2)
+                    except StopIteration:
+                        pass
+                    del g2
             rec.rewind()
             kw.pop("record")
             runs.append(list(ak.split(ak.AudioReader(rec.data, **kw), validator=val(), **skw)))
@@ -253,7 +270,7 @@ def run(rep):
     L = loader.load()
     K = b["K"]
     rep.bounds["repeated split"] = ("same bytes / same AudioRegion split 3 times; recording reader (with and without overlap) first used "
-                                    "completely, abandoned after 0-2 regions or after 0-%d bare reads, then rewound and split 3 times and compared "
+                                    "completely, abandoned after 0-2 regions or after 0-%d bare reads, then rewound and split 3 times (with a pass abandoned after its first region in between) and compared "
                                     "with a fresh reader over its data; <= %d windows, n, window, hop, counts unbounded" % (K, K))
     rep.bounds["buffer source"] = "arbitrary position, read(j), close, open, read(k): unbounded n, p0, j, k"
     modes = (0, 6) if rep.tier == "quick" else tok.MODES
